@@ -795,10 +795,12 @@ func (m *mappedFile) newCounter(name string) (v *atomic.Uint64, m1 *mappedFile, 
 
 	// Link record into hash chain, making sure not to introduce a duplicate.
 	// We know name does not appear in the chain starting at head.
+	ownV := v
+	remaps := 0
 	for {
 		next.Store(head)
 		if m.cas32(headOff, head, start) {
-			return v, nil, nil
+			return ownV, nil, nil
 		}
 
 		// Check new elements in chain for duplicates.
@@ -816,7 +818,29 @@ func (m *mappedFile) newCounter(name string) (v *atomic.Uint64, m1 *mappedFile, 
 			steps++
 			ename, enext, v, ok := m.entryAt(off)
 			if !ok {
-				return nil, nil, errCorrupt
+				// The record may lie in a part of the file that another
+				// process added after we mapped it (it can only have been
+				// allocated after our own record). Re-map, as for the
+				// first lookup above, and look at it again.
+				if remaps >= 10 || int64(m.load32(m.hdrLen+limitOff)) <= int64(len(m.mapping.Data)) {
+					return nil, nil, errCorrupt
+				}
+				remaps++
+				newM, err := openMapped(m.f.Name(), m.meta)
+				if err != nil {
+					return nil, nil, err
+				}
+				if m != orig {
+					m.close()
+				}
+				m = newM
+				if int64(start)+16+int64(len(name)) > int64(len(m.mapping.Data)) {
+					return nil, nil, errCorrupt // the file shrank
+				}
+				// Our own record, seen through the new mapping.
+				next = (*atomic.Uint32)(unsafe.Pointer(&m.mapping.Data[start+12]))
+				ownV = (*atomic.Uint64)(unsafe.Pointer(&m.mapping.Data[start]))
+				continue
 			}
 			if string(ename) == name {
 				next.Store(^uint32(0)) // mark ours as dead
